@@ -128,6 +128,17 @@ CHECKS = {
             'module, no module may be listed under an OID it does not define, identity/enterprise/compliance must be '
             'exact, and re-indexing the step must not change a byte. 4k small-scope histories are enumerated completely.',
             'Status objects are built the way compile() builds them; cumulative cover implies monotonicity.', '4/C18'),
+    'C13': ('fault_enumeration',
+            'complete enumeration of (system-call site x fault kind) per writer configuration through fault-injecting '
+            'os/tempfile/py_compile proxies; Hypothesis-drawn interleavings of two writers under a harness scheduler',
+            'For every configuration the call sites of putData() are recorded, then every site is failed once with '
+            'every fault kind (errno errors before the effect, close failing after closing, short writes of 0/1/half/'
+            'len-1 bytes, PyCompileError/SyntaxError/OSError from py_compile); after each faulted call the destination '
+            'must hold its previous or the complete new content, no temporary file may remain, only PySmiWriterError '
+            'may escape, a normal return implies full content on disk; dry-run and writeMibs=False leave the '
+            'directory snapshot unchanged. Two concurrent writers are stepped site by site.',
+            'One fault per call, injected at the granularity of the Python-level os/tempfile/py_compile calls the '
+            'writers make; schedules are sampled and owned by the harness (no kernel-level preemption).', '4/C13'),
     'C11': ('exploration',
             'exhaustive prefix enumeration of generated files + Hypothesis token mutants/noise; oracle = exception '
             'type, completeness by the renderer span table, exact line of never-viable tokens; atheris in thorough',
